@@ -1340,10 +1340,12 @@ class Algebra:
 
     def cmp(self, op, a, b):
         """comparison -> indicator ring element; strict / non-strict identified"""
-        if op in (">", ">="):
-            return self.indicator(self.sub(a, b))
-        if op in ("<", "<="):
-            return self.indicator(self.sub(b, a))
+        d = self.sub(a, b) if op in (">", ">=") else self.sub(b, a)
+        if op in (">", ">=", "<", "<="):
+            if d.is_zero():
+                # identically equal operands: not a measure-zero tie, the comparison is decided
+                return self.const(1 if op in (">=", "<=") else 0)
+            return self.indicator(d)
         raise AnalysisError("unsupported comparison %s on values" % op)
 
     # ------------------------------------------------------------------ defined atoms
@@ -1551,7 +1553,11 @@ class Algebra:
             return False
         return True
 
-    def witness(self, a, b, npoints=6, tries=600, rtol=1e-12):
+    def witness(self, a, b, npoints=None, tries=None, rtol=1e-12):
+        import os
+        deep = os.environ.get("FDCHECK_TIER") == "thorough"
+        npoints = npoints or (24 if deep else 6)
+        tries = tries or (4000 if deep else 600)
         """search an admissible point where a and b differ.  Returns (status, info):
         'differ' with the witness, 'agree' if a and b agree at npoints admissible points,
         'nopoint' if too few admissible points were found."""
